@@ -4,6 +4,25 @@ import StepModel.PyAggSpec
 namespace StepModel.PyAgg
 open StepModel.Spec.Aggregate
 
+/-! ### `check_type` decides type equality (for the regenerated comparison mode) -/
+
+open StepModel.Generated in
+theorem checkType_iff (x : Val) (e : Ty) : checkType x e = true ↔ x.ty = e := by
+  unfold checkType checkTypeWith
+  cases e with
+  | simple t => cases hx : x.ty <;> simp
+  | agg k b =>
+    cases hx : x.ty with
+    | simple t => simp
+    | agg k' b' =>
+      by_cases hk : k' = k
+      · simp [hk, baseTypesMatch, elementBaseCmp]
+      · simp [hk]
+
+open StepModel.Generated in
+theorem typeMismatch_iff (x : Val) (e : Ty) : typeMismatch x e ↔ x.ty ≠ e := by
+  unfold typeMismatch; rw [checkType_iff]
+
 /-! ### Python list primitives on in-range arguments -/
 
 theorem pyIdx_of_nonneg {len : Nat} {k : Int} (h0 : 0 ≤ k) (h1 : k.toNat < len) : pyIdx len k = some k.toNat := by
